@@ -109,6 +109,15 @@ def run(ctx):
         for _ in range(3):
             t2 = copy.deepcopy(t)
             trees.append(("deep", t2, VT.mutate(rng, t2, n_ops=rng.randrange(1, 4))))
+    # the corruption pool is C02's class-partitioned pool of every typed content kind
+    from harness import c02 as C02
+    pool = C02.uniq(VT.CONTENT_POOL + C02.float_pool(rng, 8) + C02.int_pool(rng, 8) + C02.time_pool(rng, 8) + C02.date_pool(rng, 8) +
+                    C02.uri_pool(rng, 8) + C02.text_pool(rng, 8))
+    ctx.extra["content_pool_size"] = len(pool)
+    for origin, t, ops in list(trees):
+        if origin in ("eml.xml", "subtree") and rng.random() < 0.5:
+            t2 = copy.deepcopy(t)
+            trees.append((origin, t2, ops + VT.mutate(rng, t2, n_ops=rng.randrange(1, 4), pool=pool)))
     coq_cases, coq_wants, coq_meta = [], [], []
     max_depth = 0
     for origin, t, ops in trees:
@@ -143,8 +152,42 @@ def run(ctx):
             coq_wants.append(RL.coq_outcome((ff, codes)))
             coq_meta.append({"tree": t, "edits": ops, "observed": [ff, codes]})
     ctx.extra["max_nesting_depth"] = max_depth
+    # every element whose rule constrains content beyond "empty" x the whole pool, as a single node
+    # (drives every content error branch of every typed rule in both modes)
+    rules = RL.live_rules()
+    typed = {}
+    for name, rname in R.node_mappings.items():
+        if rname in rules and rules[rname][2].get("content_rules") != ["emptyContent"]:
+            typed.setdefault(name if thorough else rname, name)
+    ncases, nwants, nmeta = [], [], []
+    for name in typed.values():
+        rj = rules[R.node_mappings[name]]
+        attrs = [(k, (sp[1] if len(sp) > 1 else "v")) for k, sp in rj[0].items() if sp[0] is True]
+        for content in pool:
+            n = RL.build_node(name, content, attrs, [])
+            ffn, codesn, problems_n = statement(lambda errs, n=n: validate.node(n, errs), {id(n)})
+            Node.store.clear()
+            surrogate = content is not None and C02.has_surrogate(content)
+            ctx.case(("leaf", R.node_mappings[name], content), ffn != "OK")
+            ctx.count("typed_leaf_nodes")
+            for key, what in problems_n:
+                ctx.fail("C04:leaf:" + key + (":lone-surrogate" if surrogate else ""), what,
+                         {"kind": "impl-vs-statement", "call": "validate.node", "node_name": name, "node_content": content,
+                          "node_attributes": attrs, "node_children": [], "observed_ff": ffn, "observed_codes": codesn})
+            if rng.random() < (0.08 if not thorough else 0.05):
+                ncases.append(RL.coq_ncase(name, content, attrs, []))
+                nwants.append(RL.coq_outcome((ffn, codesn)))
+                nmeta.append({"node_name": name, "node_content": content, "node_attributes": attrs, "observed": [ffn, codesn]})
+    ctx.extra["typed_element_names"] = len(typed)
+    badn, errorsn = RL.coq_compare(ctx, "corrN", "run_ncase tb", ncases, nwants)
+    for name, out in errorsn:
+        ctx.fail("corr:coq-error", f"case file {name} did not evaluate", {"kind": "broken-correspondence", "file": name, "output": out}, concrete=False)
+    for i in badn[:3]:
+        ctx.fail("corr:node", "model and implementation disagree on a single node",
+                 {"kind": "broken-correspondence", "theorem": "C04 (model/implementation correspondence)", "case": nmeta[i],
+                  "model": RL.coq_show(ctx, "corrN", "run_ncase tb", ncases[i])}, concrete=False)
     bad, errors = RL.coq_compare(ctx, "corr", "run_tcase tb", coq_cases, coq_wants, shard=50)
-    ctx.extra["traces_validated_against_impl"] = len(coq_cases) - len(bad) if not errors else 0
+    ctx.extra["traces_validated_against_impl"] = (len(coq_cases) - len(bad) if not errors else 0) + (len(ncases) - len(badn) if not errorsn else 0)
     for name, out in errors:
         ctx.fail("corr:coq-error", f"case file {name} did not evaluate", {"kind": "broken-correspondence", "file": name, "output": out}, concrete=False)
     for i in bad[:3]:
